@@ -257,7 +257,7 @@ class _Sub:
         import shutil, subprocess, tempfile, time, re
         shutil.copy(trace_path, os.path.join(self.d, "trace.ndjson"))
         meta = tempfile.mkdtemp(prefix="meta-", dir=self.ctx.scratch)
-        cmd = ["timeout", str(timeout), "java", "-XX:+UseSerialGC", "-Xmx6g", "-Xss64m", "-cp",
+        cmd = ["timeout", str(timeout), "java", "-XX:+UseSerialGC", "-Xmx6g", "-Xss64m", "-Djava.io.tmpdir=" + meta, "-cp",
                "/opt/veriftools/tla/tla2tools.jar:/opt/veriftools/tla/CommunityModules-deps.jar",
                "tlc2.TLC", "-metadir", meta, "-config", cfg, "-noGenerateSpecTE", "-workers", str(workers),
                "-deadlock", module]
